@@ -133,11 +133,20 @@ def drive(ctx, rec):
                 judge_exception(ctx, ev, rec)
                 return
             for p in ev.phenotypes:
-                check_program(ctx, p, ev.op, rec)
+                safe_check(p, ev.op)
+
+        def safe_check(p, where):
+            # unbounded deciders build programs thousands of levels deep; the reference folds are recursive: such a program
+            # is counted as not judged (the monitor's limit, not a verdict on the program)
+            try:
+                with core.oracle_room(30000):
+                    check_program(ctx, p, where, rec)
+            except RecursionError:
+                rec.count("too_deep_for_reference")
 
         def on_search_program(p):
             rec.count("fitness_args_checked")
-            check_program(ctx, p, "fitness-argument", rec)
+            safe_check(p, "fitness-argument")
 
         stream.run_session(ctx, on_event, on_search_program=on_search_program)
 
